@@ -286,7 +286,10 @@ func (n *server) handleCallReq(req p2pRequest) (c *client) {
 	var fd net.Conn
 	var err error
 
-	if fd, err = net.Dial("tcp", req.addr); err != nil {
+	// The dial runs inside callHandler's loop too: a host that does not answer the SYN must not
+	// block it (and with it every request to every other peer) for minutes. Bound it like the
+	// handshake below, and give it up when the request itself is given up.
+	if fd, err = (&net.Dialer{Timeout: 2 * time.Second}).DialContext(req.ctx, "tcp", req.addr); err != nil {
 		err = &P2PError{err: errors.Errorf("dial %s failed: %w", req.addr, err), t: time.Now()}
 		req.replyResult(nil, err)
 		n.logger.Error(err)
